@@ -143,8 +143,12 @@ func load(repo, verif string, dirFiles map[string][]string, dirs map[string]bool
 	for i, p := range pkgs {
 		d := strings.TrimPrefix(p.PkgPath, "github.com/nsqio/nsq/")
 		l.pkgs[d] = spkgs[i]
-		loadedPkgs[d] = p
 	}
+	packages.Visit(pkgs, nil, func(p *packages.Package) {
+		if strings.HasPrefix(p.PkgPath, "github.com/nsqio/nsq/") && !strings.HasSuffix(p.PkgPath, "/verifrt") {
+			loadedPkgs[strings.TrimPrefix(p.PkgPath, "github.com/nsqio/nsq/")] = p
+		}
+	})
 	return l, nil
 }
 
@@ -438,6 +442,7 @@ func (in *Interp) markReached(label string, model map[string]uint64) {
 	}
 	in.h.ReachObserve[label] = obs
 	in.h.ReachTrail[label] = in.trailVals()
+	in.h.ReachSched[label] = append([]schedStep{}, in.sched...)
 }
 
 func (in *Interp) trailVals() []int64 {
@@ -757,10 +762,17 @@ func main() {
 					break
 				}
 				path := filepath.Join(replayDir, fmt.Sprintf("%s-witness-%s.json", h.Name, sanitize(lab)))
-				v := &Violation{Label: lab, Kind: "witness", Model: hr.ReachModel[lab]}
+				v := &Violation{Label: lab, Kind: "witness", Model: hr.ReachModel[lab], Sched: hr.ReachSched[lab]}
 				writeReplay(path, prop, h, v, *flagTier)
 				witnessReplayed++
 				ok, out := replayWitness(repo, verif, dirFiles, h, path, lab, hr.ReachObserve[lab])
+				if !ok && len(v.Sched) > 0 {
+					// the native thread structure can differ from the symbolic one (symbolic-only stubs);
+					// a witness may also be replayed with the goroutines running freely
+					v.Sched = nil
+					writeReplay(path, prop, h, v, *flagTier)
+					ok, out = replayWitness(repo, verif, dirFiles, h, path, lab, hr.ReachObserve[lab])
+				}
 				if ok {
 					witnessOK++
 				} else {
